@@ -112,14 +112,15 @@ Definition final_state (fixed : bool) (ops : list op) : option bstate :=
   match run fixed ops st_init with Some (_, _, t) => Some t | None => None end.
 
 (* custom_reset forgets the user frame stack: every build abandoned with an open user frame (each failed JSON
-   parse of a table with unions) moves the stack up; the `us` buffer is 128 bytes after one and 1024 bytes after
-   five such builds (repaired: 128 and 128) *)
+   parse of a table with unions) moves the stack up; with the allocator of the pinned commit the `us` buffer is 128
+   bytes after one and 1024 bytes after five such builds.  Stated without reference to the allocator's sizes: the
+   stack top is not back at 0 after reset, it keeps rising and the buffer grows; repaired: back at 0, same capacity *)
 Definition abandon_uf : list op := [OStartBuffer 0 0 0; OStartTable 4; OEnterUserFrame 100; reset_plain].
 Theorem user_frame_leak_refuted :
-  (exists t1 t5, final_state false abandon_uf = Some t1 /\ final_state false (repeat_ops 5 abandon_uf) = Some t5 /\
-                 user_frame_end t1 <> 0 /\ c_us (caps t1) = 128 /\ c_us (caps t5) = 1024) /\
-  (exists t1 t5, final_state true abandon_uf = Some t1 /\ final_state true (repeat_ops 5 abandon_uf) = Some t5 /\
-                 user_frame_end t1 = 0 /\ c_us (caps t1) = 128 /\ c_us (caps t5) = 128).
+  (exists t1 t40, final_state false abandon_uf = Some t1 /\ final_state false (repeat_ops 40 abandon_uf) = Some t40 /\
+                  user_frame_end t1 <> 0 /\ user_frame_end t1 < user_frame_end t40 /\ c_us (caps t1) < c_us (caps t40)) /\
+  (exists t1 t40, final_state true abandon_uf = Some t1 /\ final_state true (repeat_ops 40 abandon_uf) = Some t40 /\
+                  user_frame_end t1 = 0 /\ user_frame_end t40 = 0 /\ c_us (caps t1) = c_us (caps t40)).
 Proof. split; eexists; eexists; vm_compute; repeat split; congruence. Qed.
 Print Assumptions user_frame_leak_refuted.
 
@@ -127,10 +128,11 @@ Print Assumptions user_frame_leak_refuted.
 Definition abandon_nested : list op :=
   [OStartBuffer 0 0 0; OStartTable 3; OTableAdd 0 4 4 [1;0;0;0]; OTableAdd 1 4 4 [2;0;0;0]; OStartTable 3; reset_plain].
 Theorem ds_first_leak_refuted :
-  (exists t1 t40, final_state false abandon_nested = Some t1 /\ final_state false (repeat_ops 40 abandon_nested) = Some t40 /\
-                  ds_first t1 = 8 /\ ds_first t40 = 320 /\ c_ds (caps t1) = 256 /\ c_ds (caps t40) = 512) /\
-  (exists t40, final_state true (repeat_ops 40 abandon_nested) = Some t40 /\ ds_first t40 = 0 /\ c_ds (caps t40) = 256).
-Proof. split; [eexists; eexists | eexists]; vm_compute; repeat split; congruence. Qed.
+  (exists t1 t400, final_state false abandon_nested = Some t1 /\ final_state false (repeat_ops 400 abandon_nested) = Some t400 /\
+                   ds_first t1 <> 0 /\ ds_first t1 < ds_first t400 /\ c_ds (caps t1) < c_ds (caps t400)) /\
+  (exists t1 t400, final_state true abandon_nested = Some t1 /\ final_state true (repeat_ops 400 abandon_nested) = Some t400 /\
+                   ds_first t400 = 0 /\ c_ds (caps t400) = c_ds (caps t1)).
+Proof. split; eexists; eexists; vm_compute; repeat split; congruence. Qed.
 Print Assumptions ds_first_leak_refuted.
 
 (* custom_reset forgets block_align: a struct root created with create_buffer(block_align = 0) after a build
